@@ -21,6 +21,6 @@ PROP = {
 
 # (category, text, design_ref, technique)
 LEVEL = ("proof",
-         "Lean 4 theorems about a transcription of the switch check, the discriminant assignment and the generated dispatch: accepted_iff (no diagnostic and no panic <=> every arm names a variant of the scrutinee's sum type, no variant is named twice, and all variants are named or there is a default arm — for every scrutinee incl. distinct wrappers, every arm list, shorthand and fully-qualified), discriminants_injective (no DiscriminantUsedAlready => pairwise different discriminants, manual ones as written), dispatch_selects_current_variant (for an accepted switch over a tagged union with injective discriminants < 256 the jump table sends a value of variant v to exactly the arm naming v, else to the default arm, never to the trap) and payload_binding_exact (the argument is the payload typed as that variant / the whole value in the default arm); pinned_* theorems show the unpatched code reaches unreachable!() on distinct wrappers and nil-like arms and agrees with the patched code elsewhere. The pinned tree violates the property in five ways that FIX.patch repairs (distinct wrappers, nil-like arm types, default arm on ?^T, pointer payloads) or that stay known findings (automatic discriminant 256, array-type arm). Each run compares the model with the real front end in-process on ~2 000 (thorough ~17 000) generated switches incl. all arm lists up to length 2 (3) over 7 small sum types, and builds + runs a sample of accepted switches with the real CLI, one run per variant value.",
+         "Lean 4 theorems about a transcription of the switch check, the discriminant assignment and the generated dispatch: accepted_iff (no diagnostic and no panic <=> every arm names a variant of the scrutinee's sum type, no variant is named twice, and all variants are named or there is a default arm — for every scrutinee incl. distinct wrappers, every arm list, shorthand and fully-qualified), discriminants_injective (no DiscriminantUsedAlready => pairwise different discriminants, manual ones as written), dispatch_selects_current_variant (for an accepted switch over a tagged union with injective discriminants < 256 the jump table sends a value of variant v to exactly the arm naming v, else to the default arm, never to the trap) and payload_binding_exact (the argument is the payload typed as that variant / the whole value in the default arm); pinned_* theorems show the unpatched code reaches unreachable!() on distinct wrappers and nil-like arms and agrees with the patched code elsewhere. The pinned tree violates the property in five ways that FIX.patch repairs (distinct wrappers, nil-like arm types, default arm on ?^T, pointer payloads) or that stay known findings (automatic discriminant 256, array-type arm). Each run compares the model with the real front end in-process on ~2 000 (thorough ~17 000) generated switches incl. all arm lists up to length 2 (3) over 7 small sum types, and builds + runs a sample of accepted switches with the real CLI, one run per variant value; every such program also uses its switch as a VALUE with every second arm leaving through `return` (fix 97f7ffe).",
          "§4 C11",
          "Lean 4 proof (loop invariants over the coverage flags; injectivity of the discriminant assignment; table lookup) + differential correspondence in-process and end to end")
